@@ -52,7 +52,7 @@ def rule_seek_targets(ctx, R="C09/seek-targets"):
                 terms = [core(x[2]), core(x[3])]
                 off = [t_ for t_ in terms if t_[0] == "field" and t_[2] == "destination_start_offset" and root(t_[1]) == ("param", 1)]
                 rva = [t_ for t_ in terms if t_[0] == "field" and t_[2] == "rva" and strip(t_[1])[0] == "call" and strip(t_[1])[1].endswith("MemoryArrayWriter::location_of_index")]
-                if len(off) == 1 and len(rva) == 1:
+                if len(off) == 1 and len(rva) == 1 and (len(x) < 5 or x[4] in ("u64", None)):
                     li = strip(rva[0][1])
                     sec, idx = core(li[2][0]), core(li[2][1])
                     if sec[0] == "field" and sec[2] == "section" and idx[0] == "field" and idx[2] == "curr_idx":
@@ -64,6 +64,31 @@ def rule_seek_targets(ctx, R="C09/seek-targets"):
             ctx.check(form is not None, R, key, b.where(bi), "seek target = %s" % form,
                       "seek target is neither start_offset + slot rva nor the saved position: %s" % show(x)[:200])
     ctx.floor(R, "Seek::seek call sites", n, 2)
+    # "wherever the destination was positioned at the start": the starting offset is kept at full width — DirSection::new stores
+    # stream_position() (u64) unnarrowed, the field is 64 bits wide, and the slot address is computed in 64 bits
+    nb = ctx.prog.by_short.get(DS + "::new")
+    if nb:
+        nb = nb[0]
+        no = Origin(nb)
+        from engine.summ import return_origins
+        from engine.origin import field_of, INT_BITS
+        vals = []
+        for e in return_origins(ctx.prog, nb.short) or []:
+            v = field_of(e, "destination_start_offset")
+            if v is not None:
+                vals.append(v)
+        narrowing = [q for v in vals for q in walk(v) if isinstance(q, tuple) and q and q[0] == "cast" and INT_BITS.get(q[3], 64) < INT_BITS.get(q[2], 64)]
+        okv = bool(vals) and all(any(q[0] == "call" and q[1] == "std::io::Seek::stream_position" for q in walk(v)) for v in vals) and not narrowing
+        ctx.check(okv, R, ("start-offset", "stored-unnarrowed"), nb.where(0), "destination_start_offset <- destination.stream_position() without a narrowing cast",
+                  "the starting offset of the destination is stored as %s: offsets of 4 GiB and more are truncated, directory slots are then patched at the wrong place" % [show(v)[:80] for v in vals])
+    adt = next((a for nme, a in ctx.prog.adts.items() if nme.endswith("dir_section::DirSection")), None)
+    fty = None
+    if adt:
+        for v_ in adt.get("variants", []):
+            for f_ in v_.get("fields", []):
+                if f_.get("name") == "destination_start_offset":
+                    fty = f_.get("ty")
+    ctx.check(fty == "u64", R, ("start-offset", "field-width"), None, "DirSection::destination_start_offset is a u64", "DirSection::destination_start_offset has type %s (a destination offset needs 64 bits)" % fty)
 
 
 def rule_save_restore(ctx, R="C09/save-restore"):
